@@ -1,7 +1,9 @@
 //! vcore: engine, choice-sequence source, shared generators and reference models.
+pub mod condgen;
 pub mod engine;
 pub mod gentree;
 pub mod model;
+pub mod proglevel;
 pub mod src;
 
 pub use engine::{CaseResult, Ctx, Failure, Property, Source, SubCheck, Tier};
